@@ -230,6 +230,16 @@ class NamespaceMapper(MutableMapping[str, str]):
                 else:
                     self._reverse.update((v, k and k + ':') for k, v in reversed(xmlns)
                                          if v not in self._reverse)
+
+                # Drop or re-point the reverse entries of prefixes that have been rebound
+                for uri, prefix in list(self._reverse.items()):
+                    if self.namespaces.get(prefix[:-1]) != uri:
+                        for k in reversed(self.namespaces.keys()):
+                            if self.namespaces[k] == uri:
+                                self._reverse[uri] = k and k + ':'
+                                break
+                        else:
+                            del self._reverse[uri]
                 return xmlns
 
             elif not level or self.xmlns_processing == 'collapsed':
